@@ -170,7 +170,7 @@ def case_program(col, p):
             ok, errs = agree_or_ladder(err, lambda: with_tf(1e-4, lambda: relerr(sfs(g, live, ns, pts, sample_times=times),
                                                                                   np.asarray(PR.run(prog + [['sample', ns]], xx).data))))
             col.tick(transitions=1 if len(errs) == 1 else 3)
-            if not ok and st and err <= 2e-3:
+            if not ok and has_frozen and err <= 2e-2:
                 # an ancient sample: the graph is sliced at the sample time, the native program keeps integrating the other populations next to the
                 # frozen one; the two are different discretisations of the same model (the frozen marginal's boundary value keeps collecting new
                 # mutations of the evolving populations), so the difference is a GRID error: it must shrink when the grid is refined
